@@ -54,6 +54,18 @@ func (c *Ctx) FactsAt(b *ssa.BasicBlock) []Fact {
 		cx, v := normFact(c.E(iff.Cond), val)
 		out = append(out, Fact{Cond: cx, Val: v, If: iff})
 	}
+	// a test of a helper's boolean result carries the helper's own tests
+	if c.factDepth == 0 {
+		c.factDepth++
+		n := len(out)
+		for i := 0; i < n; i++ {
+			for _, g := range c.impliedFacts(out[i]) {
+				g.If = out[i].If
+				out = append(out, g)
+			}
+		}
+		c.factDepth--
+	}
 	return out
 }
 
